@@ -117,6 +117,33 @@ func (e *Explorer) Explore(sc *Scenario, shardSubtrees bool) bool {
 		if x == nil {
 			return
 		}
+		if os.Getenv("VERIF_DUMP_DEVS") != "" {
+			if f, err := os.OpenFile(os.Getenv("VERIF_DUMP_DEVS"), os.O_APPEND|os.O_CREATE|os.O_WRONLY, 0o644); err == nil {
+				fmt.Fprintf(f, "DEVS %v\n", prevDevs)
+				if len(prevDevs) == 2 && strings.HasPrefix(prevDevs[0], "fault:") && strings.Contains(prevDevs[1], "serveStream#") {
+					var pos []int
+					for i, c := range x.Choices() {
+						if c != 0 {
+							pos = append(pos, i)
+						}
+					}
+					fmt.Fprintf(f, "  devpos=%v steps=%d\n", pos, x.Steps)
+					for i, p := range x.Points {
+						if p.Chosen != 0 {
+							fmt.Fprintf(f, "  point %d options=%v chosen=%d\n", i, p.Names, p.Chosen)
+						}
+					}
+					var hv []string
+					for _, ev := range x.W.Events {
+						if strings.HasPrefix(ev.Actor, "handler:") || ev.Actor == "fault" {
+							hv = append(hv, fmt.Sprintf("[%d]%s", ev.Step, ev.String()))
+						}
+					}
+					fmt.Fprintf(f, "  %v\n", hv)
+				}
+				f.Close()
+			}
+		}
 		if devs > 0 || counts {
 			e.account(sc, x, devs)
 		}
@@ -201,6 +228,12 @@ func (e *Explorer) account(sc *Scenario, x *Exec, devs int) {
 		st.StepCaps++
 	}
 	scn := hash64(sc.Name)
+	if os.Getenv("VERIF_DUMP_OUTCOMES") != "" && !st.Outcomes[scn^hash64(x.W.Outcome())] {
+		if f, err := os.OpenFile(os.Getenv("VERIF_DUMP_OUTCOMES"), os.O_APPEND|os.O_CREATE|os.O_WRONLY, 0o644); err == nil {
+			fmt.Fprintf(f, "OUTCOME %s devs=%d: %s\n", sc.Name, devs, x.W.Outcome())
+			f.Close()
+		}
+	}
 	st.Outcomes[scn^hash64(x.W.Outcome())] = true
 	for _, k := range x.States {
 		st.States[scn^k] = true
